@@ -13,6 +13,7 @@ import (
 	"strings"
 	"sync"
 	"sync/atomic"
+	"syscall"
 	"testing"
 	"time"
 
@@ -34,26 +35,6 @@ import (
 //   (b) golden-bytes, golden-hash, golden-commitment, golden-signature, golden-decode, golden-empty-data-constant,
 //       golden-cache-decode
 //   (c) decoder-panic, decode-fixed-point
-
-type caseRef struct {
-	Part    string          `json:"part"` // value | cache | decode | golden | commitment | history | node
-	Type    string          `json:"type,omitempty"`
-	Spec    json.RawMessage `json:"spec,omitempty"`
-	Paths   string          `json:"paths,omitempty"`   // fast | full
-	Decoder string          `json:"decoder,omitempty"` // decode: decoder name, or cache:<kind>:<file>
-	Input   string          `json:"input,omitempty"`   // decode: hex of the input
-	Name    string          `json:"name,omitempty"`    // golden: vector name
-	Mode    string          `json:"mode,omitempty"`    // history: fresh | reuse | walk
-	Hist    []string        `json:"hist,omitempty"`    // history: names of the pool messages, in decode order
-}
-
-type finding struct {
-	clause string
-	tags   []string
-	msg    string
-	ref    caseRef
-	cost   int
-}
 
 const (
 	tagSHNoKeyAddr = "signedheader-nil-pubkey-with-address"
@@ -178,44 +159,15 @@ func checkValue(typ string, v any, nonUTF8 bool, paths []path, ref caseRef, cost
 
 // ---- (c) decoders ------------------------------------------------------------------------------------------------------
 
-type decoder struct {
-	name string
-	dec  func([]byte) (any, error)
-	enc  func(any) ([]byte, error)
-}
-
-var decoders = []decoder{
-	{"Header", decBinaryHeader, encBinary},
-	{"SignedHeader", decBinarySignedHeader, encBinary},
-	{"Data", decBinaryData, encBinary},
-	{"SignedData", decBinarySignedData, encBinary},
-	{"Metadata", decBinaryMeta, encBinary},
-	{"State", decProtoState, encProto},
-	{"BatchCursor", decBatch, encBatch},
-}
-
-func safeDec(d decoder, in []byte) (out any, err error, panicMsg string) {
-	defer func() {
-		if x := recover(); x != nil {
-			panicMsg = fmt.Sprint(x)
-		}
-	}()
-	out, err = d.dec(in)
-	return
-}
-
-func safeEnc(d decoder, v any) (out []byte, err error, panicMsg string) {
-	defer func() {
-		if x := recover(); x != nil {
-			panicMsg = fmt.Sprint(x)
-		}
-	}()
-	out, err = d.enc(v)
-	return
-}
-
 // checkDecode: no panic; if the input decodes, the value re-encodes, and decoding that yields the same value (and the same bytes).
 func checkDecode(d decoder, in []byte) (f *finding, success bool) {
+	defer func() {
+		if x := recover(); x != nil { // hashesOf / canonOf of a decoded value
+			f = &finding{clause: "hash-or-codec-panic", tags: []string{"decoder:" + d.name}, cost: len(in),
+				msg: fmt.Sprintf("%s: hashing / rendering the value decoded from %x panics: %v", d.name, in, x),
+				ref: caseRef{Part: "decode", Decoder: d.name, Input: hex.EncodeToString(in)}}
+		}
+	}()
 	mk := func(clause, msg string) *finding {
 		return &finding{clause: clause, tags: []string{"decoder:" + d.name}, msg: msg, cost: len(in),
 			ref: caseRef{Part: "decode", Decoder: d.name, Input: hex.EncodeToString(in)}}
@@ -325,43 +277,6 @@ func cacheFixedPoint[T any](d1, d2 string) (first *cacheDump, serr, lerr error, 
 	}
 	second = dumpCache(c2)
 	return
-}
-
-// scratch directories are reused (creating and removing directories dominates the run time otherwise): "in" holds at
-// most one file at a time, "out" is only ever written by SaveToDisk, which rewrites all four files.
-type scratch struct {
-	in, out  string
-	lastFile string
-}
-
-var (
-	scratchPool sync.Pool
-	scratchAll  sync.Map
-)
-
-func getScratch() *scratch {
-	if x := scratchPool.Get(); x != nil {
-		return x.(*scratch)
-	}
-	root, err := os.MkdirTemp("", "c12-scratch-")
-	if err != nil {
-		panic(err)
-	}
-	sc := &scratch{in: filepath.Join(root, "in"), out: filepath.Join(root, "out")}
-	if err := os.MkdirAll(sc.in, 0o755); err != nil {
-		panic(err)
-	}
-	if err := os.MkdirAll(sc.out, 0o755); err != nil {
-		panic(err)
-	}
-	scratchAll.Store(root, true)
-	return sc
-}
-
-func putScratch(sc *scratch) { scratchPool.Put(sc) }
-
-func removeScratch() {
-	scratchAll.Range(func(k, _ any) bool { os.RemoveAll(k.(string)); return true })
 }
 
 // ---- whole-cache round trip (part a, cache files) ----------------------------------------------------------------------
@@ -489,9 +404,19 @@ func pathsFor(typ, mode string) []path {
 	panic("pathsFor " + typ)
 }
 
-func runJob(j job) valueResult {
+// runJob never lets a panic of the code under test (a hash function tripping over state that another worker's call
+// corrupted, for instance) escape into the harness: it is a finding of the job that was running.
+func runJob(j job) (res valueResult) {
 	raw, _ := json.Marshal(j.spec)
 	ref := caseRef{Part: "value", Type: j.typ, Spec: raw, Paths: j.paths}
+	defer func() {
+		if x := recover(); x != nil {
+			res.evals++
+			res.outcome = "violation:hash-or-codec-panic"
+			res.fs = append(res.fs, finding{clause: "hash-or-codec-panic", tags: []string{"type:" + j.typ}, ref: ref, cost: j.cost,
+				msg: fmt.Sprintf("computing hashes / signature validity / canonical form of a %s value panics: %v\n spec %s", j.typ, x, raw)})
+		}
+	}()
 	if j.typ == "Cache" {
 		ref.Part = "cache"
 		return checkCacheValue(j.spec.(CacheSpec), ref, j.cost)
@@ -944,6 +869,10 @@ func observations() []string {
 // ---- the check ---------------------------------------------------------------------------------------------------------
 
 func report(r *vf.Run, f finding) {
+	if concUnsafe.Load() && f.ref.Part != "concurrent" {
+		// part (0) failed: this part's workers call the same functions concurrently, the finding may be a consequence
+		f.tags = append(append([]string{}, f.tags...), "after:stable-under-concurrent-calls-failed")
+	}
 	r.Report(vf.Violation{Clause: f.clause, Tags: f.tags, Msg: f.msg, Cost: f.cost, History: f.ref})
 }
 
@@ -1001,6 +930,15 @@ func replay(t *testing.T, r *vf.Run, g *goldenFile) {
 		for _, f := range fs {
 			report(r, f)
 		}
+	case "concurrent":
+		// sampling of interleavings: the run is repeated, not re-enacted
+		z := concSizes(r)
+		z.Pairs = ref.Mode == layoutPair
+		z.PairSize = max(z.PairSize, 1<<20)
+		cfs, _ := RunConcurrentCalls(z, ref.Name, ref.Mode, ref.Decoder)
+		for _, f := range cfs {
+			report(r, concFinding(f))
+		}
 	case "history":
 		replayHistory(r, ref)
 	case "node":
@@ -1010,10 +948,38 @@ func replay(t *testing.T, r *vf.Run, g *goldenFile) {
 	}
 }
 
+func cpuSeconds() float64 {
+	var ru syscall.Rusage
+	if syscall.Getrusage(syscall.RUSAGE_SELF, &ru) != nil {
+		return 0
+	}
+	return float64(ru.Utime.Sec+ru.Stime.Sec) + float64(ru.Utime.Usec+ru.Stime.Usec)/1e6
+}
+
+func concSizes(r *vf.Run) ConcSizes {
+	return ConcSizes{
+		Big: vf.Pick(r, 8, 64) << 20, Mid: vf.Pick(r, 1, 8) << 20, AllSize: vf.Pick(r, 1, 2) << 20, PairSize: 1 << 20,
+		Long: vf.Pick(r, 2, 3), Short: vf.Pick(r, 2000, 5000), Rounds: vf.Pick(r, 2, 5), Pairs: r.Thorough(),
+		LimitPerRun: 60 * time.Second, Measure: true,
+	}
+}
+
+func concFinding(f ConcFinding) finding {
+	tags := []string{"fn:" + f.Fn, "type:" + f.Type, "layout:" + f.Layout, "kind:" + f.Kind}
+	if f.Other {
+		tags = append(tags, "returned-another-callers-result")
+	}
+	if f.With != "" {
+		tags = append(tags, "with:"+f.With)
+	}
+	return finding{clause: f.Clause, tags: tags, msg: f.Msg, cost: 0, ref: caseRef{Part: "concurrent", Name: f.Fn, Mode: f.Layout, Decoder: f.With}}
+}
+
 func TestCheck(t *testing.T) {
 	r := vf.Start("C12", "exploration")
 	registerGob()
 	r.Assume = []string{
+		"part (0) SAMPLES interleavings: which instructions of two overlapping calls interleave is up to the Go runtime and the machine; the check fixes the shape of the runs (milliseconds-long calls on multi-MiB values overlapped by thousands of short calls, overlap measured per call and reported in coverage.concurrent_calls) so that state shared between calls — a package-level digest, buffer or memo — is hit with practical certainty, but it does not enumerate interleavings. The free-running -race supplement (props/c12/race, coverage.race_supplement) runs the same table under the Go race detector, which reports unsynchronised shared state on every run independently of timing; it samples as well and decides nothing by itself",
 		"google.golang.org/protobuf, encoding/gob and libp2p key (un)marshalling are trusted as libraries; they are exercised, not modelled",
 		"equality of values is modulo nil-vs-empty byte strings and lists, and State.LastBlockTime is compared as an instant (time zone and monotonic clock are not part of the value)",
 		"a string that is not valid UTF-8 is refused by the protobuf encoder with an error; a clean refusal to encode is not a round-trip failure",
@@ -1059,7 +1025,37 @@ func TestCheck(t *testing.T) {
 	perType := map[string]*[4]int64{} // values, evaluations, round trips, refused
 	var ptMu sync.Mutex
 
-	// ---- (b) golden vectors first: everything below uses them as seeds
+	// ---- (0) concurrent calls first: the parts below call the same functions from parallel workers and take their
+	// results for functions of the arguments
+	cz := concSizes(r)
+	cpu0 := cpuSeconds()
+	ccfs, cst := RunConcurrentCalls(cz, "", "", "")
+	for _, f := range ccfs {
+		report(r, concFinding(f))
+		r.Outcome("concurrent:" + f.Clause)
+	}
+	if len(ccfs) > 0 {
+		concUnsafe.Store(true)
+	} else {
+		r.Outcome("concurrent:all-results-equal-the-sequential-ones")
+	}
+	evals += cst.Runs
+	distinct += cst.Runs - int64(len(cst.NoOverlap)) - int64(len(cst.Capped))
+	r.Sample(map[string]any{"part": "concurrent", "function": "Data.Hash", "layout": ConcLayouts[0], "outcome": fmt.Sprintf("%d function/layout runs failed", cst.Failed)})
+	var caps []string
+	for _, c := range cst.Capped {
+		caps = append(caps, "concurrent calls: run cut by its time limit before every goroutine made its calls: "+c)
+	}
+	for _, c := range cst.NoOverlap {
+		caps = append(caps, "concurrent calls: no overlap of calls observed in three attempts (machine too loaded?): "+c)
+	}
+	lap("concurrent-calls")
+	concCPU := cpuSeconds() - cpu0
+	// the same table, free-running under the race detector (supplement; sampling)
+	r.RacePass(vf.Pick(r, 1, 5), "github.com/evstack/ev-node/")
+	lap("race-supplement")
+
+	// ---- (b) golden vectors: everything below uses them as seeds
 	gfs, gev, eerr := checkGolden(g, "")
 	if eerr != "" {
 		r.EngineError(eerr)
@@ -1261,6 +1257,11 @@ func TestCheck(t *testing.T) {
 	lap("histories")
 	// ---- (e) verification verdicts of a node, per configuration of its signature payload provider
 	nodePatterns := vf.Pick(r, []string{"a", "e"}, append(world.Patterns("eab", 1), world.Patterns("eab", 2)...))
+	if concUnsafe.Load() {
+		// the node's own goroutines call the functions that part (0) found unsafe; a panic there cannot be caught
+		caps = append(caps, "node verdicts (e) not run: part (0) found hash/codec functions unsafe under concurrent calls, and a panic on a goroutine of the node under test would end the harness process")
+		nodePatterns = nil
+	}
 	nst, nev, ndist := runNodeVerdicts(t, r, nodePatterns)
 	evals += nev
 	distinct += ndist
@@ -1282,13 +1283,18 @@ func TestCheck(t *testing.T) {
 		pd[k] = map[string]int64{"inputs": v[0], "distinct_inputs_decoded": v[1]}
 	}
 	r.Finish(vf.Coverage{
-		Evaluations: evals, DistinctNontrivial: distinct, Exhaustive: true,
-		Rule: "(a) every enumerated value of every wire type is carried through each of its real paths (MarshalBinary/UnmarshalBinary, ToProto+proto.Marshal / proto.Unmarshal+FromProto, the real DefaultStore, Cache.SaveToDisk/LoadFromDisk) and compared field by field, by Hash/DACommitment and by signature validity; " +
+		Evaluations: evals, DistinctNontrivial: distinct, Exhaustive: len(caps) == 0, Caps: caps,
+		Rule: "(0) concurrent calls: every function of the table (MarshalBinary / UnmarshalBinary / ToProto+proto.Marshal / proto.Unmarshal+FromProto of Header, SignedHeader, Metadata, Data, SignedData; Hash of Header, SignedHeader, Data, SignedData; DACommitment; ValidateBasic / Validate; the signature checks; DefaultSignaturePayloadProvider; State ToProto / FromProto; the batch-cursor codec; types.Validate(header, data); the store and cache-file round trips) is called by 2 and by 8 goroutines behind a start barrier, on different values and on one shared value, in the layouts listed under bounds; then all functions run at once (two goroutines each), and at the thorough tier every ordered pair of different functions runs as two goroutines (at the quick tier pairs of different functions meet in the all-at-once layout and in the -race supplement only). In each run one side is busy for a long time inside single calls on multi-MiB values while the other side completes thousands of calls on small values; every goroutine keeps calling until all of them have made their minimal number of calls and have seen min(that number, 16) of their calls overlapped. EVERY result of every call is compared with the result the same call returned sequentially before the run (computed twice: a difference there is clause stable-under-repeated-calls); a differing result or a panic (recovered per call) is clause stable-under-concurrent-calls with tags fn:<function>, layout:<layout>, kind:mismatch|panic and returned-another-callers-result when the wrong result is the expected result of another goroutine. The overlap of calls is measured (a call counts as overlapped when another goroutine was inside a call at its start or end, or completed one meanwhile); a run in which some goroutine saw no overlap is repeated, and listed under caps after three attempts. Parts (a)-(e) run afterwards; a panic of a hash or codec function inside their parallel workers is a finding (hash-or-codec-panic), never a harness crash. " +
+			"(a) every enumerated value of every wire type is carried through each of its real paths (MarshalBinary/UnmarshalBinary, ToProto+proto.Marshal / proto.Unmarshal+FromProto, the real DefaultStore, Cache.SaveToDisk/LoadFromDisk) and compared field by field, by Hash/DACommitment and by signature validity; " +
 			"(b) fixed values are compared verbatim with /verif/golden/c12.json; (c) every byte string up to the length bound, every prefix and every single-byte substitution of every golden encoding is offered to every decoder; " +
 			"(d) decode histories: over a pool of messages of every codec type that collide pairwise on every sub-key a memo could use (signer address / public key / key type, header hash, height, time, chain id, signature, tx list, metadata, wire length and prefix, present vs absent sub-messages, failing vs succeeding decodes), EVERY ordered history up to the length bound is run in its own freshly started process (fresh receivers: all pool^n histories; one reused receiver: all histories within one receiver type), decodes first, dumps afterwards; every step's dump (canonical fields, Hash/DACommitment, signature validity, ValidateBasic verdict, re-encoded bytes, re-decode fixed point) must equal the dump of the one-message history of that message, and a pool value must equal the value it was encoded from; plus one long in-process walk that decodes every ordered pair consecutively in the state parts (a)-(c) left behind. " +
 			"(e) verification verdicts of a node: a real full node (real SyncLoop, RetrieveLoop, HeaderStoreRetrieveLoop under virtual time) configured with signature payload provider P receives a signed header of a real producer chain, re-signed by the proposer over the default payload / the non-default payload / with a corrupted signature, un-encoded and through each of its encodings that lead back into a node (cache file across SaveCache / NewManager / LoadCache with the header waiting for its data or for its predecessor, DA blob, P2P header store) while the block's data arrives un-encoded or as a SignedData DA blob (valid / corrupted signature); 'the node applies the block' must be the same for the decoded value as for the value that was encoded, for every combination (the signed payload is node configuration, not part of any encoding); part (a) additionally compares signature validity under the non-default provider's payload before and after every path. " +
 			"evaluations = (value, path) round trips attempted + commitment comparisons + golden comparisons + (decoder, input) decodes + histories (one process each) + decodes of the in-process walk + node scenarios; distinct non-trivial = distinct values that completed a round trip on at least one path + distinct (decoder, input) pairs that decoded successfully and went through the re-encode/decode fixed-point test (mutants are de-duplicated by hash, short strings are distinct by construction) + distinct histories whose last decode succeeds + node scenarios in which the block is applied",
 		Bounds: map[string]any{
+			"concurrent_functions": cst.Functions, "concurrent_goroutines": "2 and 8 per function; 2 per function with all functions at once; 2 for pairs of functions",
+			"concurrent_layouts_per_function": ConcLayouts, "concurrent_cross_function_layouts": []string{layoutAll + fmt.Sprintf(" x %d rounds", cz.Rounds), layoutPair + vf.Pick(r, " — thorough tier only", " for every ordered pair")},
+			"concurrent_value_sizes": fmt.Sprintf("multi-MiB = %s, MiB = %s, all-at-once long side = %s, pair long side = %s of payload (store and cache-file functions capped at 1 MiB); small = typical values of ~100 bytes", sizeLabel(cz.Big), sizeLabel(cz.Mid), sizeLabel(cz.AllSize), sizeLabel(cz.PairSize)),
+			"concurrent_min_calls": fmt.Sprintf("%d per goroutine on a multi-MiB value (%d on a MiB value in the 8-goroutine shared layout), %d per goroutine on a small value; all goroutines keep calling until the last one has reached its minimum", cz.Long, 2*cz.Long, cz.Short),
 			"byte_field_domain": "nil, empty, 1 byte, 32 bytes", "integer_domain": "0, 1, 2^63, 2^64-1", "string_domain": "empty, \"c\", ff fe (not UTF-8)",
 			"tx_count": fmt.Sprintf("0..%d over {nil, empty, 01, 02, 32 bytes}", b.maxTxs), "batch_entries": fmt.Sprintf("0..%d over {nil, empty, 1, 32, 300 bytes}", b.maxBatch),
 			"header_fields_varied_at_once": b.headerK, "signed_header_fields_varied_at_once": b.signedHeaderK, "store_and_cache_paths_up_to_fields_varied": b.fullPathK,
@@ -1303,6 +1309,7 @@ func TestCheck(t *testing.T) {
 			"node_verdict_dimensions": "every target block above the first x node provider {default, non-default} x header signed over {default payload, non-default payload, corrupted} x {in order, before its predecessor blocks} x header via {un-encoded (reference), cache file across a clean restart, DA blob, P2P store (in order only)} x data via {un-encoded, SignedData DA blob, SignedData DA blob with corrupted signature} (empty block: no data)",
 		},
 		Extra: map[string]any{
+			"concurrent_calls": cst, "concurrent_calls_cpu_seconds": concCPU,
 			"values_per_type": pt, "decoder_inputs": pd, "completed_path_round_trips": completed, "encode_refusals_non_utf8": rejected,
 			"decoder_evaluations": decEvals, "cache_decoder_evaluations": cacheEvals, "value_jobs": len(jobs),
 			"observations": observations(), "phase_seconds": phase, "decode_histories": hst, "node_verdicts": nst,
